@@ -524,6 +524,23 @@ def literals_near(exp):
     return out
 
 
+def cover_envs(rnd, exp, cap=160):
+    """a covering design for hand-written programs: every field takes every value near every literal at least once (the other
+    fields drawn at random), so that each branch a literal guards is visited in every run"""
+    spl, ids = fields(exp)
+    near = literals_near(exp)
+    fs = sorted(set(spl) | set(ids))
+    envs = []
+    for f in sorted(set(ids)):
+        for v in near:
+            env = {g: (rnd.choice(near) if near and rnd.random() < 0.5 else gen_value(rnd)) for g in fs}
+            env[f] = v
+            envs.append(env)
+    if len(envs) > cap:
+        envs = rnd.sample(envs, cap)
+    return envs
+
+
 def gen_envs(rnd, exp, n=6):
     spl, ids = fields(exp)
     near = literals_near(exp)
